@@ -16,6 +16,10 @@ notification names of the code; `table` = the parent<-child and self registratio
 together with the cross links = the complete registry of the fonts' notification centres as far as the
 modelled objects go (the harness compares it with `NotificationCenter._registry` after every operation).
 
+The second half of the file keeps the components' wiring as STATE (`OState`, `ostep`): registrations established
+and dropped at the events at which the code does it, not recomputed — `synced` (Props/C11.lean) proves the two
+descriptions equal in every reachable state, and the driver dumps the stored one.
+
 `xpost` delivers a change along the complete table: besides the `*.Changed` chain of M-Parents' `post`, a glyph
 that hears `Contour.Changed` / `Component.Changed` posts `Glyph.ContoursChanged` / `Glyph.ComponentsChanged`, the
 components that observe it post `Component.BaseGlyphDataChanged`, and their glyphs post
@@ -261,6 +265,100 @@ def xstep (s : State) : Op → State × Res
       | some l => ({ s with heap := removeChild (spawnMany s.heap g .contour (decomposeCount s l c)) g c }, .ok)
 
 def xrun (s : State) (ops : List Op) : State := ops.foldl (fun s op => (xstep s op).1) s
+
+/-! ### The stored wiring
+
+`watchOf` above says what a component observes as a function of the tree.  The code does not compute it that
+way: it keeps registrations in the font's notification centre and changes them at EVENTS —
+
+* `beginSelfBaseGlyphNotificationObservation` when a component gets a glyph of a font (insertComponent, the
+  component pen of a loaded / copied glyph) and in `_set_baseGlyph`;
+* `endSelfBaseGlyphNotificationObservation` in `Component.endSelfNotificationObservation` (removeComponent,
+  clearComponents, clear, decomposeComponent, the glyph leaving its layer, the layer leaving its font) and in
+  `_set_baseGlyph`;
+* the six callbacks, when the layer ANNOUNCES something about the component's base glyph name: `Layer.GlyphAdded`
+  (newGlyph, insertGlyph), `Layer.GlyphWillBeDeleted` / `GlyphDeleted` (`del layer[name]`), `Layer.GlyphNameChanged`
+  with the new name and `Glyph.NameChanged` of the observed object with the old one (`glyph.name = …`).  Each of
+  them ends what the component observes and begins again, looking the name up in the layer at that moment.
+
+`OState` stores what every component observes; `ostep` changes it at these events ONLY: `announced` lists the
+(layer, name) pairs an operation announces, `rebind` is the reaction of a component that observes that layer and has
+that base glyph name, `settle` is begin / end of the component's own observation (it gets or loses its place in a
+font, is put into another layer, changes its base glyph name).  A component that hears nothing keeps what it has.
+That the stored wiring always equals `watchOf` is a theorem (`synced`, Props/C11.lean), not a definition. -/
+
+def Watch.layerId : Watch → Id
+  | .glyph l _ => l
+  | .layer l => l
+
+/-- what an operation announces to the components: (layer, glyph name) pairs.  (`layer[name]` of a glyph that is
+only on disk announces nothing in the code; no component can be waiting for such a name, see the harness'
+assumptions — the model lets the components look again.) -/
+def announced (h : Heap) : Op → List (Id × String)
+  | .base (.newGlyph l name) => [(l, name)]
+  | .base (.insertGlyph l src name) => [(l, name.getD (h.nameOf src))]
+  | .base (.getGlyph l name _) => [(l, name)]
+  | .load l name _ _ => [(l, name)]
+  | .base (.delGlyph l name) => [(l, name)]
+  | .base (.renameGlyph g name) =>
+    match h.storedLayer g with
+    | some l => [(l, h.nameOf g), (l, name)]
+    | none => []
+  | _ => []
+
+/-- the reaction of a component with base glyph name `b` that observes `w` to the announcements: if one of them
+is about its layer and its base glyph name it ends what it observes and begins again (`h'`: the layer as the
+callback finds it) -/
+def rebind (h' : Heap) (b : Option String) (anns : List (Id × String)) (w : Watch) : Watch :=
+  match b with
+  | some b => if (w.layerId, b) ∈ anns then Watch.of w.layerId (h'.findNamed w.layerId .glyph b) else w
+  | none => w
+
+/-- begin / end of a component's own observation after an operation: `s'` the state after it, `before` the base
+glyph name it had, `w` what it observes (after the callbacks) -/
+def settle (s' : State) (before : Option String) (c : Id) (w : Option Watch) : Option Watch :=
+  match s'.heap.kindOf c, s'.baseOf c with
+  | some .component, some b =>
+    match dispOf s'.heap c, layerOf s'.heap c with
+    | some _, some l =>
+      match w with
+      | some w0 =>
+        -- still in the same layer with the same base glyph name: nothing happens; else
+        -- `endSelfBaseGlyphNotificationObservation` + `beginSelfBaseGlyphNotificationObservation`
+        if w0.layerId = l ∧ before = some b then some w0 else some (Watch.of l (s'.heap.findNamed l .glyph b))
+      | none => some (Watch.of l (s'.heap.findNamed l .glyph b))     -- beginSelfBaseGlyphNotificationObservation
+    | _, _ => none                                                       -- endSelfBaseGlyphNotificationObservation
+  | _, _ => none
+
+structure OState where
+  st : State := {}
+  /-- what each component observes, by object number -/
+  watch : List (Option Watch) := []
+
+def OState.watchAt (s : OState) (c : Id) : Option Watch := (s.watch[c]?).join
+
+def ostep (s : OState) (op : Op) : OState × Res :=
+  let r := xstep s.st op
+  let anns := announced s.st.heap op
+  ({ st := r.1,
+     watch := (List.range r.1.heap.next).map fun c =>
+       settle r.1 (s.st.baseOf c) c ((s.watchAt c).map (rebind r.1.heap (s.st.baseOf c) anns)) }, r.2)
+
+def orun (s : OState) (ops : List Op) : OState := ops.foldl (fun s op => (ostep s op).1) s
+
+/-- the cross-link registrations of `x` as observer, from the STORED wiring -/
+def storedRowsOf (s : OState) (x : Id) : List XReg :=
+  match dispOf s.st.heap x with
+  | none => []
+  | some c =>
+    (match s.watchAt x with
+      | some w => compRows c x w
+      | none => []) ++
+    (match imageWatch s.st.heap x with
+      | some (l, f) => imageRows c x l f
+      | none => [])
+
+def storedTable (s : OState) : List XReg := (List.range s.st.heap.next).flatMap (storedRowsOf s)
 
 end Cross
 end DefconModel
